@@ -1,15 +1,22 @@
 (* C10  EVM semantics conform to reference go-ethereum (Constantinople rules).
    Only property theorems (closed by [exact]) and assumption reports.
-   Two ties to /repo.  (a) Model/EvmArith.v defines every pure instruction on 256-bit words; the
+   Three ties to /repo.  (a) Model/EvmArith.v defines every pure instruction on 256-bit words; the
    theorems below show that these definitions are the mathematical operations of the
    specification; the "evmarith" engine compares the in-tree interpreter (and the reference
-   interpreter) with the definitions on boundary and random operands.  (b) The rest of the
-   machine - memory, storage, control flow, environment, logs, nested calls, creates,
-   self-destructs, precompiles - is not modelled: the "evmdiff" engine runs generated programs on
-   the in-tree and the reference go-ethereum v1.8.27 interpreters and compares outcome class,
-   return data, post-state root and logs (partial, DESIGN.md C10). *)
-From Coq Require Import ZArith Bool Lia.
-From AnnVerif Require Import Model.EvmArith Proofs.EvmProofs.
+   interpreter) with the definitions on boundary and random operands.  (b) Model/EvmCore.v is an
+   executable model of the interpreter loop for one contract frame: stack and its limit, memory in
+   words, storage, logs, jump-destination analysis, PUSH/DUP/SWAP, call data and code copies,
+   environment and block instructions, RETURN/REVERT/STOP/INVALID and undefined opcodes, on top of
+   (a); the theorems below are its structural invariants for every program, environment and run
+   length; the "evmcore" engine compares the in-tree interpreter with it on generated programs
+   (outcome class, return data, storage, logs) and runs the reference interpreter on the same
+   requests.  (c) What (b) does not model - SHA3, account queries, BLOCKHASH, nested calls, creates,
+   self-destructs, precompiles, gas - is compared with the reference only: the "evmdiff" engine runs
+   generated programs on the in-tree and the reference go-ethereum v1.8.27 interpreters and compares
+   outcome class, return data, post-state root and logs (partial, DESIGN.md C10). *)
+From Coq Require Import ZArith Bool Lia List.
+From AnnVerif Require Import Model.EvmArith Proofs.EvmProofs Model.EvmCore Proofs.EvmCoreProofs.
+Import ListNotations.
 Open Scope Z_scope.
 
 Theorem c10_add : forall a b, op_add a b = (a + b) mod 2 ^ 256.
@@ -65,3 +72,43 @@ Example c10_corner_cases :
   op_sar 255 (2 ^ 255) = 2 ^ 256 - 1 /\ op_signextend 0 255 = 2 ^ 256 - 1 /\ op_signextend 0 127 = 127 /\
   op_exp 2 256 = 0 /\ op_exp 3 (2 ^ 256 - 1) mod 2 = 1 /\ op_byte 31 258 = 2 /\ op_div 5 0 = 0 /\ op_addmod (2 ^ 256 - 1) 2 7 = (2 ^ 256 + 1) mod 7.
 Proof. vm_compute. repeat split. Qed.
+
+(* ---- the interpreter loop (Model/EvmCore.v) ---- *)
+
+(* the stack never exceeds its limit, whatever the program does *)
+Theorem c10_stack_limit :
+  forall e code m m', step e code m = inl m' -> (length (m_stack m') <= 1024)%nat.
+Proof. exact step_stack_bound. Qed.
+Print Assumptions c10_stack_limit.
+
+(* the program counter stays on instruction boundaries: operands of PUSH are never executed *)
+Theorem c10_pc_on_instruction_boundaries :
+  forall e code m m', step e code m = inl m' -> at_start code (m_pc m) -> at_start code (m_pc m').
+Proof. exact step_at_start. Qed.
+Print Assumptions c10_pc_on_instruction_boundaries.
+
+(* a jump is taken only to a JUMPDEST byte that is an instruction of the code *)
+Theorem c10_jump_lands_on_jumpdest :
+  forall code d, valid_dest code d = true -> 0 <= d -> nth (Z.to_nat d) code 0 = 91 /\ at_start code (Z.to_nat d).
+Proof. exact jump_lands_on_jumpdest. Qed.
+Print Assumptions c10_jump_lands_on_jumpdest.
+
+(* both hold in every state of every run from the start of a call *)
+Theorem c10_run_invariant :
+  forall fuel e code m, inv code m -> Forall (inv code) (states fuel e code m).
+Proof. exact run_invariant. Qed.
+Print Assumptions c10_run_invariant.
+Theorem c10_initial_state : forall code store, inv code (init_state store).
+Proof. exact init_inv. Qed.
+
+(* non-vacuity: a counted loop that stores, a jump into PUSH data that fails, and the stack limit
+   PUSH1 3; JUMPDEST; DUP1; PUSH1 0; SSTORE; PUSH1 1; SWAP1; SUB; DUP1; PUSH1 2; JUMPI; STOP *)
+Definition cx_env : env := mkEnv 193 170 170 0 0 12648430 1000 300 7 10000000 [1; 2; 3].
+Definition cx_loop : list Z := [96; 3; 91; 128; 96; 0; 85; 96; 1; 144; 3; 128; 96; 2; 87; 0].
+Definition cx_badjump : list Z := [96; 3; 86; 97; 91; 91; 0].   (* jumps to offset 3: the operand of the PUSH2 *)
+Definition cx_overflow : list Z := [91; 88; 96; 0; 86].         (* JUMPDEST; PC; PUSH1 0; JUMP: one more word per turn *)
+Example c10_core_nonvacuous :
+  call 1000 cx_env cx_loop [] = OStop [] [(0, 1); (0, 2); (0, 3)] [] /\
+  call 1000 cx_env cx_badjump [] = OFail /\
+  call 4500 cx_env cx_overflow [] = OFail.
+Proof. vm_compute. repeat split; reflexivity. Qed.
